@@ -72,6 +72,7 @@ def _job(args):
     seed, n, mode = args
     rng = random.Random(seed)
     cases, metas = [], []
+    stats_regex_conforming = [0]
     while len(cases) < 2 * n:
         large = rng.random() < 0.1          # now and then beyond hand-written sizes
         pool = rules.LARGE_POOL if large else rng.choice((rules.COLLISION_FREE, rules.ADVERSARIAL))
@@ -99,6 +100,50 @@ def _job(args):
             if fp is None:
                 continue
             S, O = fp
+            if rng.random() < 0.2:
+                # a side given by a regex (prefix match: a module together with its sub modules, siblings sharing the prefix)
+                import re as _re
+                stem = rng.choice(cand)
+                rx = ("regex", [rng.choice([_re.escape(stem), _re.escape(stem) + r"(\..*)?$", _re.escape(stem) + ".*"])])
+                if rng.random() < 0.5:
+                    S = rx
+                else:
+                    O = rx
+        if rng.random() < 0.15:
+            # decomposition laws need a passing 'should': a regex side matching a module together with its sub modules, every
+            # match importing (imported by) the other side, plus imports that stay INSIDE the outer match / go elsewhere
+            import re as _re
+            stems = [x for x in cand if any(m.startswith(x + ".") for m in nodes)]
+            others = [x for x in cand if stems and not rules.related(x, stems[0])]
+            if stems and others:
+                stem = rng.choice(stems)
+                others = [x for x in cand if not rules.related(x, stem)]
+                if others:
+                    o = rng.choice(others)
+                    rxs = _re.escape(stem) + rng.choice([".*", r"(\..*)?$"])
+                    matched = [m for m in nodes if _re.match(rxs, m)]
+                    fwd = rng.random() < 0.5
+                    E = set()
+                    for m in matched:
+                        src_pool = [x for x in srcs if x == m or x.startswith(m + ".")] or [m]
+                        a_, b_ = rng.choice(src_pool), o
+                        if not fwd:
+                            a_, b_ = rng.choice([x for x in srcs if x == o or x.startswith(o + ".")] or [o]), m
+                        if a_ in srcs:
+                            E.add((a_, b_))
+                    inside = [x for x in nodes if x.startswith(stem + ".")]
+                    for _ in range(rng.randint(0, 2)):
+                        a_, b_ = rng.choice(inside), rng.choice(inside + [stem])
+                        if a_ != b_ and a_ in srcs and not rules.related(a_, b_):
+                            E.add((a_, b_))
+                    if rng.random() < 0.3:
+                        a_, b_ = rng.choice(srcs), rng.choice(nodes)
+                        if a_ != b_:
+                            E.add((a_, b_))
+                    edges = sorted(E)
+                    single = False
+                    S, O = (("regex", [rxs]), ("named", [o])) if fwd else (("named", [o]), ("regex", [rxs]))
+                    stats_regex_conforming[0] += 1
         d = law_specs(S, O, single)
         keys = list(d)
         # an extra import between two distinct nodes that are not a hierarchy pair
@@ -113,7 +158,7 @@ def _job(args):
         cases.append(dict(nodes=nodes, edges=sorted(E | {(a, b)}), specs=specs, mode=mode))
         metas.append((keys, single, (a, b)))
     res = rules.eval_cases(cases)
-    viol, disag, stats = [], [], {}
+    viol, disag, stats = [], [], {"regex_side_with_nested_matches_and_passing_should": stats_regex_conforming[0]}
     n_eval = 0
     nontriv = 0
     pairs = []
